@@ -150,7 +150,12 @@ func (m *Machine) addEvent(st *State, name string, args, rets []Value) *Event {
 
 // newEvent builds an event record (argument contents are snapshotted now) without appending it.
 func (m *Machine) newEvent(st *State, name string, args []Value) *Event {
-	ev := &Event{Name: name, Args: args, Seqs: map[int]*SeqV{}, Snaps: map[int]*SliceSnap{}}
+	ev := &Event{Name: name, Args: args, Seqs: map[int]*SeqV{}, Snaps: map[int]*SliceSnap{}, Locks: map[string]int{}}
+	for k, v := range st.locks {
+		if v > 0 {
+			ev.Locks[k] = v
+		}
+	}
 	for i, a := range args {
 		if s, ok := a.(*Slice); ok {
 			func() {
@@ -721,6 +726,18 @@ func init() {
 				return m.ctx.App(fmt.Sprintf("calleeEvTotal!%d", st.opaque), m.ts.Idx())
 			}
 			return m.ts.IdxConst(int64(len(st.events) - st.evBase))
+		},
+		"evHeld": func(m *Machine, st *State, fr *Frame, instr ssa.Instruction, fn *ssa.Function, args []Value) Value {
+			// evHeld(name, k, &x.mu): the k-th event of that name happened while x.mu was held in write mode
+			if st.opaque != 0 {
+				// an observation about the callee's own trace: opaque to the caller
+				return m.ctx.App(fmt.Sprintf("calleeEvHeld!%d!%s", st.opaque, constStringArg(instr, 0)), BoolSort, args[1].(*Term), args[2].(*Ptr).Ref)
+			}
+			e := m.findEvent(st, constStringArg(instr, 0), m.constIntArg(instr, 1, args[1]))
+			if e == nil {
+				return m.ctx.F
+			}
+			return m.ctx.Bool(e.Locks[lockKey(args[2].(*Ptr))] == 2)
 		},
 		"evIndex": func(m *Machine, st *State, fr *Frame, instr ssa.Instruction, fn *ssa.Function, args []Value) Value {
 			if st.opaque != 0 {
